@@ -172,9 +172,25 @@ def construct(spec):
     raise AssertionError(k)
 
 
+def _odd_number(x):
+    """scenario encodings of numbers that are Real but neither float nor
+    int (F_BADPARAM): a Fraction, a numpy.float32, a numpy.int64."""
+    if isinstance(x, dict) and 'fraction' in x:
+        from fractions import Fraction
+        return Fraction(*x['fraction'])
+    if isinstance(x, dict) and 'np' in x:
+        import numpy as np
+        return getattr(np, x['np'])(x['v'])
+    return x
+
+
 def declare(ctx, d):
     g = gp()
     m, s = ctx.objs[d['m']], ctx.objs[d['s']]
+    if isinstance(d.get('eff'), dict):
+        d = dict(d, eff=_odd_number(d['eff']))
+    if isinstance(d.get('f'), dict):
+        d = dict(d, f=_odd_number(d['f']))
     if d['op'] == 'joint':
         g.utils.add_fixed_joint(master=m, slave=s)
     elif d['op'] == 'gear':
